@@ -47,7 +47,10 @@ RULE = (
     "85% StringIO/BytesIO, 15% real files} x strip_control, plus extract_text (given and default laparams) and text-sink runs (extract_text_to_fp into StringIO/text file, "
     "extract_text) that pass a narrow codec= (ascii, latin-1, cp1252, cp437, koi8-r, shift_jis, gbk, euc_kr, iso2022_jp, hz, big5; one that "
     "cannot encode the document's text whenever there is one): a str sink must receive the tree's text unchanged whatever the codec; "
-    "XML into a text sink only accepts codec=None, so no codec is varied there; and "
+    "XML into a text sink only accepts codec=None, so no codec is varied there; 30% of the documents also go through "
+    "tools/pdf2txt.py -o FILE -c CODEC -t text|xml|html (+ the layout and page options) with a codec other than utf-8: the file must satisfy "
+    "the same oracle as a binary sink with that codec (html: equal the library's output with that codec and declare it); about 8% of the "
+    "pages show only blanks (analysed, no text box: groups == [] and an empty <layout>); and "
     "page_numbers/maxpages. One evaluation = one (document, configuration) comparison; "
     "distinct = distinct (pdf, configuration); non-trivial = the selected pages show >=1 glyph and the document carries a "
     "non-alphanumeric feature in text or names, or a figure. Not generated: font names given as PDF strings, lone surrogates, "
@@ -76,7 +79,7 @@ def minimums(tier: str) -> Dict[str, int]:
     if tier == "quick":
         return {"evaluations": 4000, "distinct": 3500, "docs": 500, "text_runs": 1800, "xml_runs": 1500, "xml_elements_compared": 150000,
                 "xml_attrs_compared": 400000, "xml_chardata_compared": 100000, "xml_wellformed_demanded": 1000, "xml_marked_runs": 200,
-                "xml_bytes_parsed": 200, "binary_text_runs": 900, "binary_xml_runs": 600, "file_sink_runs": 300, "escape_codec_text_runs": 60, "text_sink_codec_runs": 800, "text_sink_lossy_codec_runs": 600, "seen:text_sink_codecs": 8, "escape_codec_xml_runs": 60,
+                "xml_bytes_parsed": 200, "binary_text_runs": 900, "binary_xml_runs": 600, "file_sink_runs": 300, "escape_codec_text_runs": 60, "text_sink_codec_runs": 800, "pdf2txt_runs": 90, "pdf2txt_text_runs": 25, "pdf2txt_xml_runs": 25, "pdf2txt_html_runs": 8, "empty_layout_pages": 10, "text_sink_lossy_codec_runs": 600, "seen:text_sink_codecs": 8, "escape_codec_xml_runs": 60,
                 "reference_trees_compared": 3500, "text_box_newlines": 10000, "text_formfeeds": 1000,
                 "docs_xmlspecial_text": 200, "docs_xmlspecial_fontname": 150, "docs_xmlspecial_figname": 80, "docs_nonbmp": 25,
                 "docs_ctrl_text": 60, "docs_ctrl_name": 40, "docs_nonchar_text": 8, "docs_nested_figures": 40, "docs_images": 80,
@@ -84,7 +87,7 @@ def minimums(tier: str) -> Dict[str, int]:
                 "layout_elements": 200, "seen:xml_tags": 12, "seen:codecs": 28}
     return {"evaluations": 100000, "distinct": 85000, "docs": 12800, "text_runs": 50000, "xml_runs": 40000, "xml_elements_compared": 4000000,
             "xml_attrs_compared": 10000000, "xml_chardata_compared": 2500000, "xml_wellformed_demanded": 30000, "xml_marked_runs": 6000,
-            "xml_bytes_parsed": 6000, "binary_text_runs": 25000, "binary_xml_runs": 18000, "file_sink_runs": 9000, "escape_codec_text_runs": 1800, "text_sink_codec_runs": 20000, "text_sink_lossy_codec_runs": 15000, "seen:text_sink_codecs": 11, "escape_codec_xml_runs": 1800,
+            "xml_bytes_parsed": 6000, "binary_text_runs": 25000, "binary_xml_runs": 18000, "file_sink_runs": 9000, "escape_codec_text_runs": 1800, "text_sink_codec_runs": 20000, "pdf2txt_runs": 2400, "pdf2txt_text_runs": 800, "pdf2txt_xml_runs": 800, "pdf2txt_html_runs": 300, "empty_layout_pages": 300, "text_sink_lossy_codec_runs": 15000, "seen:text_sink_codecs": 11, "escape_codec_xml_runs": 1800,
             "reference_trees_compared": 85000, "text_box_newlines": 300000, "text_formfeeds": 30000,
             "docs_xmlspecial_text": 6000, "docs_xmlspecial_fontname": 4500, "docs_xmlspecial_figname": 2400, "docs_nonbmp": 1200,
             "docs_ctrl_text": 1800, "docs_ctrl_name": 1200, "docs_nonchar_text": 300, "docs_nested_figures": 1200, "docs_images": 2400,
@@ -284,6 +287,70 @@ def run_extract_text(pdf: bytes, la: Optional[Dict[str, Any]], sel: Dict[str, An
     return out, list(_SEEN)
 
 
+_TOOLS: Dict[str, Any] = {}
+
+
+def _pdf2txt() -> Any:
+    """tools/pdf2txt.py of the tree under test, imported by path (the tools are scripts, not a package)."""
+    import importlib.util
+    import os
+
+    from vf import REPO
+
+    if "pdf2txt" not in _TOOLS:
+        spec = importlib.util.spec_from_file_location("vf_c11_tool_pdf2txt", os.path.join(REPO, "tools", "pdf2txt.py"))
+        mod = importlib.util.module_from_spec(spec)    # type: ignore[arg-type]
+        spec.loader.exec_module(mod)                    # type: ignore[union-attr]
+        _TOOLS["pdf2txt"] = mod
+    return _TOOLS["pdf2txt"]
+
+
+def la_args(la: Optional[Dict[str, Any]]) -> List[str]:
+    """The command-line spelling of an LAParams dict."""
+    if la is None:
+        return ["-n"]
+    a: List[str] = []
+    for k, o in (("line_overlap", "--line-overlap"), ("char_margin", "--char-margin"), ("line_margin", "--line-margin"),
+                 ("word_margin", "--word-margin")):
+        if k in la:
+            a.append("%s=%r" % (o, la[k]))
+    if "boxes_flow" in la:
+        a.append("--boxes-flow=%s" % ("disabled" if la["boxes_flow"] is None else repr(la["boxes_flow"])))
+    if la.get("detect_vertical"):
+        a.append("--detect-vertical")
+    if la.get("all_texts"):
+        a.append("--all-texts")
+    return a
+
+
+def run_pdf2txt(pdf: bytes, output_type: str, codec: str, la: Optional[Dict[str, Any]], sel: Dict[str, Any], strip: bool) -> Tuple[bytes, List[Any]]:
+    """tools/pdf2txt.py in.pdf -o out.bin -t TYPE -c CODEC ... (main(args) in this process; stdout is left alone: the tool
+    looks at sys.stdout.encoding) -> (bytes of the output file, LTPages the converter serialised)."""
+    import os
+    import tempfile
+
+    _install_recorder()
+    tool = _pdf2txt()
+    with tempfile.TemporaryDirectory(prefix="vf-c11-") as d:
+        inp = os.path.join(d, "in.pdf")
+        outp = os.path.join(d, "out.bin")       # no suffix the tool would turn into an output type
+        with open(inp, "wb") as f:
+            f.write(pdf)
+        args = [inp, "-o", outp, "-t", output_type, "-c", codec] + la_args(la)
+        if strip:
+            args.append("-S")
+        if "maxpages" in sel:
+            args += ["-m", str(sel["maxpages"])]
+        if "page_numbers" in sel:
+            args += ["--page-numbers"] + [str(i + 1) for i in sel["page_numbers"]]
+        del _SEEN[:]
+        rc = tool.main(args)
+        if rc != 0:
+            raise RuntimeError("pdf2txt.main returned %r" % (rc,))
+        with open(outp, "rb") as f:
+            return f.read(), list(_SEEN)
+
+
 def loose_sig(pages: List[Any], text_only: bool) -> List[Any]:
     """Order- and index-insensitive content of the trees (ties in the analysis permute boxes and reshape groups)."""
     from pdfminer.layout import LTAnno, LTChar, LTContainer, LTCurve, LTFigure, LTImage, LTText
@@ -404,6 +471,9 @@ def expected_tree(pages: List[Any], strip: bool, mark: bool, stats: Dict[str, in
         if isinstance(item, LTPage):
             kids = [conv(c) for c in item]
             if item.groups is not None:
+                # an analysed page has a <layout>, also when the analysis found no text box (groups == [])
+                if not item.groups:
+                    stats["empty_layout_pages"] = stats.get("empty_layout_pages", 0) + 1
                 kids.append(Exp("layout", {}, None, [group(g) for g in item.groups]))
             return Exp("page", {"id": "%s" % item.pageid, "bbox": bbox_str(item.bbox), "rotate": "%d" % item.rotate}, None, kids, item)
         if isinstance(item, LTLine):
@@ -819,6 +889,7 @@ def check_case(case: Dict[str, Any], rec: Any = None, only: Optional[str] = None
     la_list: List[Optional[Dict[str, Any]]] = [la_main]
     if rng.random() < 0.5:
         la_list.append(None)
+    text_out_main: List[str] = []
     if only in (None, "text"):
         text_main: Optional[str] = None
         for la in la_list:
@@ -839,6 +910,7 @@ def check_case(case: Dict[str, Any], rec: Any = None, only: Optional[str] = None
             ok = eval_text(label, r[0], r[1], sc) and plumbing(label, la, r[1], True)
             if ok and la is la_main:
                 text_main = r[0]
+                text_out_main.append(r[0])
         if text_main is not None:
             # a codec given together with a text sink: the sink receives the tree's text unchanged, whatever the codec can hold
             fs = rng.random() < 0.15
@@ -890,6 +962,7 @@ def check_case(case: Dict[str, Any], rec: Any = None, only: Optional[str] = None
         strip1 = rng.random() < 0.5
         la_x = None if rng.random() < 0.5 else la_main
         combos = [(la_main, strip1), (la_x, not strip1)]
+        xml_ok: List[Tuple[Optional[Dict[str, Any]], bool, str]] = []
         for la, strip in combos:
             lk = "none" if la is None else "main"
             fs = rng.random() < 0.15
@@ -907,6 +980,7 @@ def check_case(case: Dict[str, Any], rec: Any = None, only: Optional[str] = None
                 continue
             if not (eval_xml(label, r[0], r[1], strip, None) and plumbing(label, la, r[1], False)):
                 continue
+            xml_ok.append((la, strip, r[0]))
             # binary sinks with codecs able to encode this very document
             for codec in choose_codecs(rng, HEADER.sub("", r[0]), 2):
                 fs = rng.random() < 0.15
@@ -951,6 +1025,62 @@ def check_case(case: Dict[str, Any], rec: Any = None, only: Optional[str] = None
                     diff = compare_trees(expected_tree(pages, strip, False, {}), root, {}, set())
                     if diff is not None:
                         fails.append(("xml_bytes_tree:" + diff[0], "%s: %s" % (label, diff[1])))
+    # ------------------------------------------------------------------ the command-line tool
+    # tools/pdf2txt.py -o FILE -c CODEC -t text|xml|html: the file holds what the library writes to a binary sink with that codec
+    if only is None and rng.random() < 0.3:
+        kind = rng.choice(["text", "text", "xml", "xml", "html"])
+        n0 = len(fails)
+        if kind == "text" and text_out_main:
+            codec = rng.choice([c for c in choose_codecs(rng, text_out_main[0], 3) if c != "utf-8"])
+            label = "pdf2txt/text/%s" % codec
+            r = call(label, run_pdf2txt, pdf, "text", codec, la_main, sel, False)
+            evaluation(label)
+            count("pdf2txt_runs")
+            count("pdf2txt_text_runs")
+            if r is not None and decode_text(label, codec, r[0], r[1]):
+                plumbing(label, la_main, r[1], True)
+        elif kind == "xml" and xml_ok:
+            la, strip, sxml = rng.choice(xml_ok)
+            codec = rng.choice([c for c in choose_codecs(rng, HEADER.sub("", sxml), 3) if c != "utf-8"])
+            label = "pdf2txt/xml/%s/strip=%d" % (codec, strip)
+            r = call(label, run_pdf2txt, pdf, "xml", codec, la, sel, strip)
+            evaluation(label)
+            count("pdf2txt_runs")
+            count("pdf2txt_xml_runs")
+            if r is not None:
+                try:
+                    dec = r[0].decode(codec)
+                except UnicodeError:
+                    dec = None
+                if dec is None or HEADER.match(dec) is None:
+                    fails.append(classify_binary_xml(codec, r[0], dec, sxml))
+                elif eval_xml(label, dec, r[1], strip, codec):
+                    plumbing(label, la, r[1], False)
+        elif kind == "html":
+            # no tree oracle for HTML (not part of the property): the tool's file equals the library's binary output with the codec
+            u = call("html/BytesIO/utf-8", run_converter, pdf, "html", la_main, sel, "utf-8")
+            if u is not None and isinstance(u[0], bytes):
+                body = u[0].decode("utf-8")
+                codec = rng.choice([c for c in choose_codecs(rng, body, 3) if c != "utf-8"])
+                label = "pdf2txt/html/%s" % codec
+                lib = call("html/BytesIO/" + codec, run_converter, pdf, "html", la_main, sel, codec)
+                r = call(label, run_pdf2txt, pdf, "html", codec, la_main, sel, False)
+                evaluation(label)
+                count("pdf2txt_runs")
+                count("pdf2txt_html_runs")
+                if lib is not None and r is not None:
+                    try:
+                        same = r[0].decode(codec) == lib[0].decode(codec)
+                    except UnicodeError:
+                        same = False
+                    if not same:
+                        how = "codec_ignored" if r[0] == u[0] else "mismatch"
+                        fails.append(("html_file_%s" % how, "%s: the file differs from extract_text_to_fp(output_type='html', codec=%r): starts %r / %r" % (
+                            label, codec, r[0][:90], lib[0][:90])))
+                    elif ("charset=%s" % codec) not in r[0].decode(codec)[:200]:
+                        fails.append(("html_charset_declaration", "%s: %r" % (label, r[0][:120])))
+        for i in range(n0, len(fails)):
+            fails[i] = ("pdf2txt:" + fails[i][0], fails[i][1])
     if rec is not None:
         for k, v in stats.items():
             rec.count(k, v)
